@@ -479,3 +479,103 @@ def b6(prog):
     if n < 3:
         raise Broken("fewer functions with an error-slot parameter than confirmed by hand (3)")
     return inst, findings
+
+
+def b7(prog):
+    """A failed downcast is never dereferenced.  In every library function, a variable initialised from std::dynamic_pointer_cast or a
+    pointer dynamic_cast (null when the object is of another class - and which class it is depends on what the caller passed through the
+    API) may be dereferenced (`->`, unary `*`) only on paths on which it was tested: the CFG is walked from the function's entry following, at every test
+    of the variable (`p == nullptr`, `p != nullptr`, `p`, `!p`), only the edge on which it is null; a dereference reached that way is a
+    crash for some input.  assert() is not a test (release builds compile it out).  The expected number of findings is zero and the
+    number of downcasts may legitimately drop to zero, so the rule has a compiled positive control instead of a floor."""
+    from cfg import CFG, contains_assert
+    from zw import walk_nolambda, unwrap
+    inst, findings = [], []
+
+    def is_downcast(e):
+        e = unwrap(e)
+        while isinstance(e, dict) and e.get("k") == "ctor" and len(e.get("a", [])) == 1:
+            e = unwrap(e["a"][0])
+        if not isinstance(e, dict):
+            return False
+        if e.get("k") == "call" and (e.get("f") or "").startswith(("std::dynamic_pointer_cast<", "dynamic_pointer_cast<")):
+            return True
+        return e.get("k") == "cast" and e.get("ck") == "dynamic" and str(e.get("t", "")).rstrip().endswith("*")
+
+    def refs(e, vid):
+        return isinstance(e, dict) and any(y.get("k") == "ref" and y.get("id") == vid for y in walk_nolambda(e))
+
+    def is_var(e, vid):
+        e = unwrap(e)
+        return isinstance(e, dict) and e.get("k") == "ref" and e.get("id") == vid
+
+    def derefs(e, vid):
+        for y in walk_nolambda(e):
+            k = y.get("k")
+            if k == "call" and y.get("fn") in ("operator->", "operator*") and ((y.get("obj") is not None and is_var(y["obj"], vid)) or (y.get("a") and is_var(y["a"][0], vid))):
+                return True
+            if k == "mem" and y.get("arrow") and is_var(y.get("b"), vid):
+                return True
+            if k == "call" and y.get("arrow") and y.get("obj") is not None and is_var(y["obj"], vid):
+                return True
+            if k == "un" and y.get("op") == "*" and is_var(y.get("e"), vid):
+                return True
+        return False
+
+    def from_assert(e):
+        """the expression is (part of) the expansion of the assert macro"""
+        return any("assert" in (y.get("macs") or []) for y in walk_nolambda(e))
+
+    def null_edge(c, vid):
+        """label of the edge of the atomic condition `c` on which the variable is null; None if `c` is no test of it"""
+        c = unwrap(c)
+        if not isinstance(c, dict):
+            return None
+        if is_var(c, vid):
+            return False
+        if c.get("k") == "call" and c.get("fn") == "operator bool" and ((c.get("obj") is not None and is_var(c["obj"], vid)) or (c.get("a") and is_var(c["a"][0], vid))):
+            return False
+        ops = None
+        if c.get("k") == "bin" and c.get("op") in ("==", "!="):
+            ops = (c["op"], c.get("lhs"), c.get("rhs"))
+        elif c.get("k") == "call" and c.get("op") in ("==", "!=") and len(c.get("a", [])) == 2:
+            ops = (c["op"], c["a"][0], c["a"][1])
+        if ops:
+            op, l, r = ops
+            isnull = lambda x: isinstance(unwrap(x), dict) and (unwrap(x).get("k") == "null" or (unwrap(x).get("k") == "int" and unwrap(x).get("v") == 0))
+            if (is_var(l, vid) and isnull(r)) or (is_var(r, vid) and isnull(l)):
+                return op == "=="
+        return None
+    for f in sorted(prog.funcs.values(), key=lambda f: f["fid"]):
+        if f.get("body") is None:
+            continue
+        rel = prog.rel(f.get("file", ""))
+        if not rel.startswith(("libzwerg/", "controls/")) or "/test" in rel or rel.endswith("gendoc.cc"):
+            continue
+        casts = []
+        for d in walk_nolambda(f["body"]):
+            if d.get("k") == "decl":
+                for v in d.get("vars", []):
+                    if v.get("init") is not None and is_downcast(v["init"]):
+                        casts.append(v)
+        if not casts:
+            continue
+        g = CFG(f)
+        for v in casts:
+            vid = v["id"]
+            key = "B7:%s:%s" % (f["q"], v["n"])
+
+            def edge_ok(n, t, lab, vid=vid):
+                if n.kind != "cond" or not isinstance(n.ast, dict) or contains_assert(n.ast) or from_assert(n.ast):
+                    return True
+                ne = null_edge(n.ast, vid)
+                return ne is None or lab == ne        # follow only the paths on which the variable may still be null
+            reach = g.reachable(edge_ok=edge_ok)
+            bad = [n for n in g.nodes if n.id in reach and isinstance(n.ast, dict) and not contains_assert(n.ast) and derefs(n.ast, vid)]
+            inst.append((key, {"dereferences_checked": sum(1 for n in g.nodes if isinstance(n.ast, dict) and derefs(n.ast, vid))}))
+            if bad:
+                findings.append({"key": key, "where": "libzwerg/" + str(bad[0].loc or f["l"]),
+                                 "msg": "%s dereferences `%s`, the result of a dynamic downcast, on a path on which it was never tested for null (an assert is compiled out of release builds): "
+                                        "when the object is of another class - e.g. the same vocabulary added twice through zw_vocabulary_add - the library crashes instead of reporting an error" % (f["q"], v["n"]),
+                                 "detail": None})
+    return inst, findings
